@@ -58,15 +58,18 @@ Proof. exact noninterference_repaired. Qed.
 Print Assumptions C12_noninterference_repaired.
 
 (* the key directory: at every creation of a file inside it, it has been chown'ed to root:root and
-   chmod'ed to 0o700 and nothing has undone that (mkdir resets; restarts redo chown + chmod) *)
-Theorem C12_dir_restricted_at_create : forall (v : variant) (h : history) (pre : list sys) (c : fileclass) (post : list sys),
-  sys_trace v h = pre ++ Create c :: post -> restricted (dir_after pre) = true.
+   chmod'ed to 0o700 and nothing has undone that (mkdir resets; restarts redo chown + chmod); [predir]:
+   the directory already existed, mode 0o755 and not chown'ed, when the agent first started *)
+Theorem C12_dir_restricted_at_create :
+  forall (v : variant) (predir : bool) (h : history) (pre : list sys) (c : fileclass) (post : list sys),
+  sys_trace v predir h = pre ++ Create c :: post -> restricted (dir_after predir pre) = true.
 Proof. exact dir_restricted_at_create. Qed.
 Print Assumptions C12_dir_restricted_at_create.
 
 (* DESIGN form: chown root:root and chmod 0o700 (= 448) precede the first creation in the key directory *)
-Theorem C12_dir_restricted_first : forall (v : variant) (h : history) (pre : list sys) (c : fileclass) (post : list sys),
-  sys_trace v h = pre ++ Create c :: post -> In (Chmod 448) pre /\ In (Chown 0 0) pre.
+Theorem C12_dir_restricted_first :
+  forall (v : variant) (predir : bool) (h : history) (pre : list sys) (c : fileclass) (post : list sys),
+  sys_trace v predir h = pre ++ Create c :: post -> In (Chmod 448) pre /\ In (Chown 0 0) pre.
 Proof. exact dir_restricted_first. Qed.
 Print Assumptions C12_dir_restricted_first.
 
@@ -92,8 +95,10 @@ Example C12_nonvacuous :
                        Poll (SOk false (Some 2%N) 1) KErr AOk; Restart; Poll (SOk true (Some 2%N) 1) KErr AOk; ClientRequest;
                        StatusTick; ProvisionQuery true; ProvisionTimeup])
     = [(KeyFile, [1%N; 2%N])]
-  /\ map sys_code (sys_trace unfixed [Poll (SOk true None 1) (KOk 1 true) AOk; ProvisionTimeup; Restart; Poll (SOk true None 1) (KOk 2 true) AOk])
+  /\ map sys_code (sys_trace unfixed false [Poll (SOk true None 1) (KOk 1 true) AOk; ProvisionTimeup; Restart; Poll (SOk true None 1) (KOk 2 true) AOk])
     = [(0, 0); (1, 0); (2, 448); (3, 0); (3, 1); (3, 1); (1, 0); (2, 448); (3, 0)]%N
+  /\ map sys_code (sys_trace unfixed true [Poll (SOk true None 1) (KOk 1 true) AOk])
+    = [(1, 0); (2, 448); (3, 0)]%N
   /\ vector (run repaired witness_not_hex) = []
   /\ vector (run repaired witness_body_malformed) = [].
 Proof. exact nonvacuous_examples. Qed.
